@@ -79,22 +79,40 @@ func allowed(path string, ms []mapping) (set map[string]bool, lookalike bool) {
 			if mask&(1<<uint(i)) != 0 {
 				continue
 			}
-			if strings.HasPrefix(cur, m.Prefix) && !under(cur, m.Prefix) {
+			next, ambiguous := applyMapping(cur, m)
+			if ambiguous {
 				lookalike = true
-			}
-			next := cur
-			if under(cur, m.Prefix) {
-				rest := cur[len(strings.TrimRight(m.Prefix, "/")):]
-				if strings.Contains(rest, m.Prefix) {
-					lookalike = true
-				}
-				next = m.Repl + rest
 			}
 			rec(next, mask|1<<uint(i))
 		}
 	}
 	rec(path, 0)
 	return set, lookalike
+}
+
+// applyMapping replaces a leading, component-wise prefix. A mapping registered with a trailing
+// separator ("/opt/x/" -> "~x/") applies to everything below the directory; whether it also applies to
+// the directory path itself written without the separator is not stated (ambiguous), as are textual
+// look-alikes and prefixes that occur again further inside the path.
+func applyMapping(cur string, m mapping) (next string, ambiguous bool) {
+	if strings.HasSuffix(m.Prefix, "/") && len(m.Prefix) > 1 {
+		switch {
+		case strings.HasPrefix(cur, m.Prefix):
+			rest := cur[len(m.Prefix):]
+			return m.Repl + rest, strings.Contains(rest, m.Prefix)
+		case cur == strings.TrimRight(m.Prefix, "/"):
+			return cur, true
+		}
+		return cur, false
+	}
+	if strings.HasPrefix(cur, m.Prefix) && !under(cur, m.Prefix) {
+		return cur, true
+	}
+	if under(cur, m.Prefix) {
+		rest := cur[len(strings.TrimRight(m.Prefix, "/")):]
+		return m.Repl + rest, strings.Contains(rest, m.Prefix)
+	}
+	return cur, false
 }
 
 func equivalentRel(r, input string) bool {
@@ -349,6 +367,12 @@ func TestSafety(t *testing.T) {
 					continue
 				}
 				m.Repl = genRepl(t, ms)
+				if rapid.IntRange(0, 3).Draw(t, "trailingSeparator") == 0 {
+					// registered the other common way: "/opt/x/" -> "~x/"
+					m.Prefix += "/"
+					m.Repl = strings.TrimRight(m.Repl, "/") + "/"
+					v.labels["prefix-with-trailing-separator"] = true
+				}
 				if under(m.Repl, m.Prefix) {
 					m.Repl = "@self" // a mapping onto (something under) its own prefix protects nothing
 				}
